@@ -316,6 +316,7 @@ def tyOfGo : GoVal → Option Ty
 open GV.CbGuard in
 def showOut : Out → String
   | .done => "done" | .value v => s!"value:{v}" | .zero => "zero" | .blocked => "blocked"
+  | .selected i => s!"sel:{i}" | .selectedValue i v => s!"sel:{i}:value:{v}" | .selectedZero i => s!"sel:{i}:zero"
   | .errCannotBlock => "err:cannot-block" | .errSendClosed => "err:send-closed"
   | .typeErrorNotAFunction => "typeerror:not-a-function" | .resumed g => s!"resumed:{g}" | .idle => "idle"
 
@@ -338,6 +339,13 @@ def parseEv (s : String) : Option Ev :=
     | some g, some v => some (.send g v)
     | _, _ => none
   | ["recv", g] => (gid g).map .recv
+  | ["sel", g, pick, cases] =>
+    let cs := (cases.splitOn ".").mapM fun c =>
+      if c == "r" then some Case.recv else if c == "d" then some Case.dflt
+      else if c.startsWith "s" then (dropPrefix c 1).toNat?.map Case.send else none
+    match gid g, pick.toNat?, cs with
+    | some g, some p, some cs => some (.select g p cs)
+    | _, _, _ => none
   | ["dequeue"] => some .dequeue
   | _ => none
 
@@ -346,20 +354,6 @@ def runGuard (cap : Nat) (evs : List Ev) : String :=
   let rec go (s : St) : List Ev → List String
     | [] => []
     | e :: es => let r := step s e; (showOut r.1 ++ " " ++ showSt r.2) :: go r.2 es
-  "|".intercalate (go (init cap) evs)
-
-open GV.CbGuard in
-/-- the specification of the guard: like `step`, but an operation executed in a callback that has to block raises the
-    error and leaves the state exactly as it was -/
-def stepSpec (s : St) (e : Ev) : Out × St :=
-  let r := step s e
-  if r.1 = .errCannotBlock then (.errCannotBlock, s) else r
-
-open GV.CbGuard in
-def runGuardSpec (cap : Nat) (evs : List Ev) : String :=
-  let rec go (s : St) : List Ev → List String
-    | [] => []
-    | e :: es => let r := stepSpec s e; (showOut r.1 ++ " " ++ showSt r.2) :: go r.2 es
   "|".intercalate (go (init cap) evs)
 
 /-- topic `jsconv` -/
@@ -404,10 +398,6 @@ def handle : List String → String
     match parseUnits h with
     | some u => units16 (externalizeString (internalizeString u))
     | none => "bad-op"
-  | ["guardspec", cap, evs] =>     -- what the property demands: a blocking operation in a callback fails and changes nothing
-    match cap.toNat?, (evs.splitOn "|").mapM parseEv with
-    | some c, some es => runGuardSpec c es
-    | _, _ => "bad-op"
   | ["cls", t, v] =>               -- class of the externalized value (model)
     match (parse t).bind toTy, (parse v).bind toGo with
     | some τ, some g => showR (fun j => showClass (GV.Spec.JsTable.classOf j)) (externalize τ g)
